@@ -344,7 +344,11 @@ def _discharge_idx(i):
                 fail["candidate_only"] = True
         if wf is not None:
             try:
-                fail["witness"] = wf(ModelEval(model)) if model is not None else (wf(lambda x, default=None: default) if d["status"] == "refuted" else None)
+                # without a model the witness builder still yields the case description (shape, route, operation): a candidate that the
+                # replay harness tries on the real code -- only a reproduced failure is reported as a violation with an input
+                fail["witness"] = wf(ModelEval(model)) if model is not None else wf(lambda x, default=None: default)
+                if model is None and d["status"] != "refuted":
+                    fail["candidate_only"] = True
             except Exception as e:
                 fail["witness_error"] = repr(e)
         out["fail"] = fail
@@ -381,10 +385,18 @@ def run_unit(args):
             return v
 
         all_obls = []
-        for st, out in explore(run):
-            res["paths"] += 1
-            res["trusted"] = sorted(set(res["trusted"]) | st.trusted_used)
-            all_obls.extend(st.obls)
+        try:
+            for st, out in explore(run):
+                res["paths"] += 1
+                res["trusted"] = sorted(set(res["trusted"]) | st.trusted_used)
+                all_obls.extend(st.obls)
+        except Unsupported as e:
+            # out of exploration budget: the obligations of the paths explored so far are still discharged (a failure among them is a
+            # failure), but the unit as a whole is reported as only partially explored, i.e. undecided
+            if res["paths"] > 0 and ("time budget" in str(e) or "path explosion" in str(e)):
+                res["partial"] = str(e)
+            else:
+                raise
         res["explore_s"] = time.time() - t0
         _OBLS = all_obls
         res["vcs"] = len(all_obls)
@@ -433,6 +445,13 @@ def run_unit(args):
         res["inlined"] = sorted(I.inlined)
     except (Unsupported, IterationCap) as e:
         res["ungenerable"] = str(e)
+        res["trace"] = traceback.format_exc()[-3000:]
+    except PyExc as e:
+        # a python exception of the code under verification escaped the contract body (the contract did not expect this call to
+        # raise): the unit is undecided -- neither held nor violated -- and says which exception it was
+        ev_ = getattr(e, "value", None)
+        res["ungenerable"] = ("the code under contract raised an exception the contract does not handle: "
+                              + getattr(getattr(ev_, "cls", None), "name", "?") + " " + repr(getattr(ev_, "fields", {}).get("args", ""))[:200])
         res["trace"] = traceback.format_exc()[-3000:]
     except Exception as e:
         res["error"] = repr(e)
@@ -572,6 +591,8 @@ def main(argv=None):
             if a.verbose:
                 print(r.get("trace"))
             continue
+        if r.get("partial"):
+            undecided.append((r["unit"], "only partially explored: " + r["partial"]))
         if r["paths"] == 0 or not r["obligations"]:
             errors.append((r["unit"], "vacuous: no paths / no obligations generated", None))
             continue
